@@ -4,7 +4,7 @@ import glob, json, os, re
 HERE = os.path.dirname(os.path.abspath(__file__))
 metas = [json.load(open(f)) for f in sorted(glob.glob(os.path.join(HERE, "seeded", "*", "meta.json")))]
 out = []
-for rnd in (2, 3, 4, 5):
+for rnd in (2, 3, 4, 5, 6):
     ms = [m for m in metas if m.get("round") == rnd]
     missed = [m for m in ms if m.get("first_result") == "missed"]
     outside = [m for m in ms if m.get("first_result") == "not caught"]
@@ -26,4 +26,4 @@ a, b = "<!-- seeded-rounds-2-3:begin -->", "<!-- seeded-rounds-2-3:end -->"
 assert a in s and b in s
 s = s[:s.index(a) + len(a)] + "\n" + text + s[s.index(b):]
 open(p, "w").write(s)
-print("DESIGN.md tables regenerated:", sum(1 for m in metas if m.get("round") in (2, 3, 4, 5)), "changes")
+print("DESIGN.md tables regenerated:", sum(1 for m in metas if m.get("round") in (2, 3, 4, 5, 6)), "changes")
